@@ -15,6 +15,8 @@ def records(rng, N=None, L=None, nrec=None, wt="u", maxw=3, labels=None, ensure_
     srcs = [i for i in range(N) if roles[i] in "bs"] or [0]
     dsts = [i for i in range(N) if roles[i] in "bo"] or [N - 1]
     recs = []
+    # real weights: in one list out of five every positive weight is a fraction in (1e-6, 1)
+    fractional = wt == "r" and rng.random() < 0.2
     for _ in range(nrec):
         kind = rng.random()
         if recs and kind < 0.12:          # parallel record (same pair again)
@@ -35,7 +37,9 @@ def records(rng, N=None, L=None, nrec=None, wt="u", maxw=3, labels=None, ensure_
             else:
                 w = rng.choice([0, 1, 1, 1, 2, rng.randint(1, maxw)])
             if wt == "r":
-                if w and rng.random() < 0.5:
+                if w and fractional:
+                    w = rng.choice([0.5, 0.25, 0.999, 2e-6, 0.1 + 0.8 * rng.random()])
+                elif w and rng.random() < 0.5:
                     w = rng.choice([w - rng.random() * 0.9, w + 0.0, 1e-7, 0.5, 2.5])
                 w = float(w)
             elif wt == "l" and rng.random() < 0.05:
